@@ -417,3 +417,99 @@ Fixpoint trun (n : Z) (st : state) (ops : list top) : list (list Z) :=
   | [] => []
   | o :: r => let '(st', out) := tstep n st o in out :: trun n st' r
   end.
+
+(* ================================================================================================ *)
+(* ---- the source side (src/source.c): which of the operations above a timer source issues, and when.
+   A dispatch source is a queue object: somebody calls dx_wakeup on it (_dispatch_source_wakeup, source.c:916), which
+   enqueues it iff its state asks for an invoke; the lane that holds it then calls _dispatch_source_invoke2
+   (source.c:715), which performs the source's actions in a fixed order.  x_enq t abstracts "source t is enqueued, or
+   the thread that holds its drain lock will look at it again" (the DIRTY bit protocol of the lanes).  Boundary to the
+   lane properties (C01/C04): an enqueued, unsuspended source is eventually invoked; a dx_wakeup that races with an invoke
+   is not lost.  One XInvoke step performs the first applicable action of invoke2; an invoke2 call that performs
+   several actions on one queue is several XInvoke steps with nothing in between *)
+Record xstate := mkX {
+  x_st : state;
+  x_canc : Z -> bool;          (* DSF_CANCELED *)
+  x_enq : Z -> bool            (* a wakeup of the source is pending *)
+}.
+Definition x_init : xstate := mkX init_state (fun _ => false) (fun _ => false).
+
+Definition has_cfg (x : timer) : bool := match t_cfg x with Some _ => true | None => false end.
+
+(* _dispatch_source_refs_needs_rearm (source.c:489) with _du_state_needs_rearm (event_internal.h:495) *)
+Definition refs_needs_rearm (x : timer) : bool :=
+  if has_cfg x then true
+  else (t_reg x =? 1) && negb (t_armed x) && (t_target x <? INT64_MAX).
+
+(* _dispatch_source_wakeup (source.c:916-975) for a timer source: is there a reason to invoke the source?
+   (tq != DISPATCH_QUEUE_WAKEUP_NONE; registration / cancel handler deliveries are not timer business and left out;
+   DSF_DELETED of a timer source = cancelled and unregistered, unregistration of timers never being deferred) *)
+Definition wake_needed (x : timer) (canc : bool) : bool :=
+  if t_reg x =? 0 then true                                        (* !ds_is_installed *)
+  else if negb canc && has_cfg x then true                         (* needs configuration *)
+  else if negb canc && nz (t_pending x) then true                  (* pending data for the handler *)
+  else if canc then negb (t_reg x =? 2)                            (* cancelled, not yet unregistered *)
+  else refs_needs_rearm x.                                         (* needs a rearm on the manager queue *)
+
+(* dx_wakeup(ds, ...) *)
+Definition x_wakeup (xs : xstate) (t : Z) : xstate :=
+  mkX (x_st xs) (x_canc xs) (updf (x_enq xs) t (x_enq xs t || wake_needed (tm (x_st xs) t) (x_canc xs t))).
+
+(* _dispatch_source_latch_and_call (source.c:529-586) for a timer: latch, handler, and the configuration that arrived
+   while the timer was disarmed is applied right after the handler (source.c:575-578) *)
+Definition latch_and_call (st : state) (t now : Z) : state :=
+  let prev := t_pending (tm st t) in
+  let st := fst (latch st t now) in
+  if nz (Z.land prev DISPATCH_TIMER_DISARMED_MARKER) && has_cfg (tm st t) then configure st t else st.
+
+(* _dispatch_source_invoke2 (source.c:715-893): the first applicable action, in the order of the code *)
+Definition invoke_step (xs : xstate) (t now : Z) : xstate :=
+  let st := x_st xs in
+  let x := tm st t in
+  let canc := x_canc xs t in
+  let keep st' := mkX st' (x_canc xs) (x_enq xs) in
+  if t_reg x =? 0 then keep (register st t)                                      (* :755 _dispatch_source_install *)
+  else if t_susp x then xs                                                       (* :766 suspended: nothing *)
+  else if negb canc && has_cfg x then keep (configure st t)                      (* :771-779 *)
+  else if negb canc && nz (t_pending x) then keep (latch_and_call st t now)      (* :801-829 *)
+  else if canc && negb (t_reg x =? 2) then keep (unregister st t)                (* :831-851 *)
+  else if negb canc && refs_needs_rearm x then keep (resume st t)                (* :866-890 _dispatch_unote_resume *)
+  else mkX st (x_canc xs) (updf (x_enq xs) t false).                             (* nothing left: returns NONE *)
+
+Inductive xop :=
+| XNew (t flags : Z)                         (* dispatch_source_create / the source of _dispatch_after *)
+| XAfter (t tg dl : Z)                       (* _dispatch_after stores dt_timer before activating (source.c:1390-1393) *)
+| XSetTimer (t clock tg dl itv : Z)          (* dispatch_source_set_timer (source.c:1299): store the configuration, dx_wakeup *)
+| XActivate (t : Z)                          (* dispatch_activate: _dispatch_source_activate installs the timer (source.c:691), the lane wakes it *)
+| XSuspend (t : Z)                           (* dispatch_suspend *)
+| XResume (t : Z)                            (* dispatch_resume: _dispatch_lane_resume ends in dx_wakeup *)
+| XCancel (t : Z)                            (* dispatch_source_cancel (source.c:988): DSF_CANCELED, dx_wakeup *)
+| XInvoke (t now : Z)                        (* the lane invokes the source *)
+| XDrain (fuel : nat) (nows : Z -> Z)        (* the manager's timer pass; every fire ends in _dispatch_source_merge_evt's dx_wakeup (source.c:1146) *)
+| XExpire (i : Z).                           (* the kernel timer of clock i expires *)
+
+Definition top1 (st : state) (o : top) : state := fst (tstep 0 st o).
+Definition fire_timer (e : fire) : Z := let '(t, _, _, _) := e in t.
+
+Definition xstep (xs : xstate) (o : xop) : xstate * list fire :=
+  let st := x_st xs in
+  match o with
+  | XNew t flags => (mkX (top1 st (TNew t flags)) (updf (x_canc xs) t false) (updf (x_enq xs) t false), [])
+  | XAfter t tg dl => (mkX (top1 st (TAfter t tg dl)) (x_canc xs) (x_enq xs), [])
+  | XSetTimer t c tg dl itv => (x_wakeup (mkX (top1 st (TCfg t c tg dl itv)) (x_canc xs) (x_enq xs)) t, [])
+  | XActivate t => (x_wakeup (mkX (top1 st (TReg t)) (x_canc xs) (x_enq xs)) t, [])
+  | XSuspend t => (mkX (top1 st (TSusp t 1)) (x_canc xs) (x_enq xs), [])
+  | XResume t => (x_wakeup (mkX (top1 st (TSusp t 0)) (x_canc xs) (x_enq xs)) t, [])
+  | XCancel t => (x_wakeup (mkX st (updf (x_canc xs) t true) (x_enq xs)) t, [])
+  | XInvoke t now => (invoke_step xs t now, [])
+  | XDrain fuel nows =>
+    let '(st', ev, _, _) := drain fuel st nows [] [] in
+    (fold_left (fun s e => x_wakeup s (fire_timer e)) ev (mkX st' (x_canc xs) (x_enq xs)), ev)
+  | XExpire i => (mkX (kernel_expired st i) (x_canc xs) (x_enq xs), [])
+  end.
+
+Fixpoint xrun (xs : xstate) (l : list xop) : xstate * list fire :=
+  match l with
+  | [] => (xs, [])
+  | o :: r => let '(xs1, e1) := xstep xs o in let '(xs2, e2) := xrun xs1 r in (xs2, e1 ++ e2)
+  end.
